@@ -211,6 +211,7 @@ def check_leaves_under_parent(ctx):
     rd = rd_of(fi)
     rule = 'R-PROV/leaves-under-parent'
     found = False
+    sel_names = set()
     for node in cfg.nodes:
         if node.id not in rd.live:
             continue
@@ -222,6 +223,7 @@ def check_leaves_under_parent(ctx):
                 found = True
                 a = c.args[0] if c.args else c.keywords[0].value
                 sl = backward_slice(fi, a, node.id)
+                sel_names |= sl.names
                 bad = sl.has_attr('all_leaves') or sl.has_attr('n_leaves')
                 good = (sl.has_call('children')
                         or sl.has_call('nodes_at_level')) and sl.has_attr(
@@ -238,14 +240,16 @@ def check_leaves_under_parent(ctx):
     if not found:
         ctx.fail(rule, 'assemble_query_data:reference-rows', fi.loc(),
                  'the row selection of the leaf-mean matrix was not found')
-    # each leaf votes for the child that owns it
+    # each leaf votes for the child that owns it: the table the selected
+    # reference rows are the keys of (any container in the selection's
+    # slice) is filled as table[leaf] = child inside `for child: for leaf`
     ok = False
     for n in ast.walk(fi.node):
         if isinstance(n, ast.For) and isinstance(n.target, ast.Name):
             inner = [s for s in ast.walk(n) if isinstance(s, ast.Assign)
                      and isinstance(s.targets[0], ast.Subscript)
                      and isinstance(s.targets[0].value, ast.Name)
-                     and s.targets[0].value.id == 'leaf_to_type']
+                     and s.targets[0].value.id in sel_names]
             for s in inner:
                 outer = getattr(n, '_parent', None)
                 if isinstance(s.value, ast.Name) and isinstance(
@@ -271,6 +275,15 @@ def check_axes(ctx):
     if total < 30 and not failed:
         raise AnalysisError(f'axis typing covered only {total} array '
                             'operations')
+
+
+def T_call_name(call):
+    f = call.func
+    if isinstance(f, ast.Name):
+        return f.id
+    if isinstance(f, ast.Attribute):
+        return f.attr
+    return None
 
 
 def check_ranking(ctx):
@@ -338,16 +351,33 @@ def check_ranking(ctx):
         if isinstance(n, ast.comprehension):
             compvars |= {x.id for x in ast.walk(n.target)
                          if isinstance(x, ast.Name)}
+    # a gather is `X[a, b]` with two plain index variables; X is a vote
+    # table (element 0 of the tally / aggregation result) or a correlation
+    # table (element 1) according to the tuple position it was unpacked
+    # from -- not according to its name
     for n in ast.walk(fi.node):
         if isinstance(n, ast.Subscript) and isinstance(n.slice, ast.Tuple) \
                 and len(n.slice.elts) == 2 and all(
                     isinstance(x, ast.Name) for x in n.slice.elts) \
-                and isinstance(n.value, ast.Name) and n.value.id in (
-                    'votes', 'corr_sum') and not any(
-                        x.id in compvars for x in n.slice.elts):
-            gathers.append((n.value.id, tuple(x.id for x in n.slice.elts)))
+                and isinstance(n.value, ast.Name) and not any(
+                    x.id in compvars for x in n.slice.elts):
+            ns = [x for x in cfg.node_of_expr(n) if x.id in rd.live]
+            if not ns:
+                continue
+            kinds = set()
+            for d in rd.reaching(n.value.id, ns[0].id):
+                v = getattr(d, 'value', None)
+                if isinstance(v, ast.Call) and d.path and T_call_name(
+                        v) in ('tally_votes', 'aggregate_votes'):
+                    kinds.add(d.path[0])
+            if kinds and kinds <= {0, 1} and len(kinds) == 1:
+                idx_defs = tuple(
+                    (x.id, frozenset(d.id for d in rd.reaching(
+                        x.id, ns[0].id))) for x in n.slice.elts)
+                gathers.append((kinds.pop(), idx_defs))
     idx = {g[1] for g in gathers}
-    ok = len(gathers) >= 2 and len(idx) == 1
+    ok = {g[0] for g in gathers} == {0, 1} and len(idx) == 1
+    idx = {tuple(x[0] for x in g) for g in idx}
     ctx.ob(rule, 'choose_node:co-gather', fi.loc(), ok,
            'vote counts and correlation sums are reordered by the same '
            'ranking' if ok else
